@@ -24,6 +24,10 @@ Fixpoint be_enc (k : nat) (v : N) : bytes :=
   | S k' => be_enc k' (v / 256) ++ [v mod 256]
   end.
 
+(* decoding takes every element mod 256: only the low 8 bits of a "byte" are its value, so that a k-byte
+   field is always below 256^k whatever N the list holds (no well-formedness side conditions on inputs) *)
+Definition be_decw (b : bytes) : N := be_dec (map (fun x => x mod 256) b).
+
 (* ---------------------------------------------------------------- lengths *)
 Lemma blen_app a b : blen (a ++ b) = blen a + blen b.
 Proof. unfold blen. rewrite app_length. lia. Qed.
@@ -174,6 +178,21 @@ Qed.
 
 Lemma be_enc_small k v : v < 256 ^ N.of_nat k -> be_dec (be_enc k v) = v.
 Proof. intros H. rewrite be_dec_enc. now apply N.mod_small. Qed.
+
+Lemma map_mod_wf b : wf_bytes b -> map (fun x => x mod 256) b = b.
+Proof.
+  induction 1 as [|x b Hx Hb IH]; [reflexivity|]. cbn [map]. rewrite IH. f_equal. now apply N.mod_small.
+Qed.
+Lemma be_decw_wf b : wf_bytes b -> be_decw b = be_dec b.
+Proof. intros H. unfold be_decw. now rewrite map_mod_wf. Qed.
+Lemma wf_map_mod b : wf_bytes (map (fun x => x mod 256) b).
+Proof. induction b; constructor; [apply N.mod_lt; lia|assumption]. Qed.
+Lemma be_decw_bound b : be_decw b < 256 ^ blen b.
+Proof.
+  unfold be_decw. pose proof (be_dec_bound _ (wf_map_mod b)) as H. unfold blen in *. now rewrite map_length in H.
+Qed.
+Lemma be_decw_enc k v : be_decw (be_enc k v) = v mod 256 ^ N.of_nat k.
+Proof. rewrite be_decw_wf by apply be_enc_wf. apply be_dec_enc. Qed.
 
 (* replace bytes [i, i + len p) of b by p  (Go: copy(b[i:], p) / PutUint32(b[i:], v)) *)
 Definition patch (b : bytes) (i : N) (p : bytes) : bytes := takeN i b ++ p ++ dropN (i + blen p) b.
